@@ -70,6 +70,17 @@ FAULTS = {
     "generator-raises": dict(argv=["-f", "custom", "--code-generator", "failgen.FailingGenerator"], envs=[{"J2M_FAIL_FIELD": "1"}, {"J2M_FAIL_FIELD": "3"}, {"J2M_FAIL_FIELD": "5"}]),
     "bad-generator-kwarg": dict(argv=["-f", "attrs", "--code-generator-kwargs", "nosuchkwarg=1"]),
     "bad-regex": dict(argv=["--dkr", "k(\\d+"]),
+    "generator-kwarg-without-equals": dict(argv=["-f", "attrs", "--code-generator-kwargs", "meta"]),
+    "generator-kwarg-quoted-without-equals": dict(argv=["-f", "dataclasses", "--code-generator-kwargs", '"meta"']),
+    "generator-kwarg-empty-name": dict(argv=["-f", "attrs", "--code-generator-kwargs", "=true"]),
+    "generator-kwarg-mixed-valid-and-malformed": dict(argv=["-f", "attrs", "--code-generator-kwargs", "meta=true", "no_value"]),
+    # file and directory names containing glob meta characters that the CLI documents as literal ('[' ']')
+    "missing-file-with-brackets": dict(content=None, name="export[1].json"),
+    "malformed-json-with-brackets": dict(content='[{"a": 1}, {"a": ', name="broken[2].json"),
+    "missing-file-in-bracket-directory": dict(content=None, name="run[2]/data.json", mkdir="run[2]"),
+    "malformed-json-in-bracket-directory": dict(content='{"a": ', name="run[3]/data.json", mkdir="run[3]"),
+    "lookup-key-missing-with-brackets": dict(content='{"data": [{"a": 1}]}', lookup="items", name="data[3].json"),
+    "missing-file-decoy-matches-as-class": dict(content=None, name="export[1].json", decoy="export1.json"),
 }
 
 
@@ -101,6 +112,13 @@ def write_inputs(d, case):
         p = f"in{j}.{ext}"
         faulty = "content" in spec and j == case["pos"]
         if faulty:
+            p = spec.get("name", p)
+            if spec.get("mkdir"):
+                os.makedirs(os.path.join(d, spec["mkdir"]), exist_ok=True)
+            if spec.get("decoy"):
+                # a readable file that the faulty name would match if its brackets were read as a character class
+                with open(os.path.join(d, spec["decoy"]), "w") as f:
+                    f.write(good_text)
             if spec["content"] == "<dir>":
                 os.makedirs(os.path.join(d, p), exist_ok=True)
             elif spec["content"] is not None:
